@@ -281,7 +281,9 @@ def run_fold(ctx, prog, res, f):
                 tbl = z3.Or(*[z3.And(E == k, pw == 10 ** k) for k in range(0, 39)])
                 fits = z3.Exists([pw], z3.And(tbl, c.t * pw <= I128_MAX, c.t * pw >= -I128_MAX))
                 goal = z3.Or(E < -18, E > 38, z3.And(E >= 0, z3.Not(fits)))
-        r = res.vc(ctx, name, o.state.constraints(), goal, {"c": c.t, "e": e.t}, {"kind": "fold"})
+        # str_to_dec never returns a zero coefficient with a positive exponent (it normalises "0e5" to (0, 0)); a counterexample there
+        # cannot be written as a literal, so models with c != 0 are asked for first
+        r = res.vc(ctx, name, o.state.constraints(), goal, {"c": c.t, "e": e.t}, {"kind": "fold"}, prefer=[c.t != 0])
         res.sample({"vc": name, "status": r.status, "time_s": round(r.time, 3)})
     return res.done()
 
